@@ -117,9 +117,21 @@ func (h *ConsistentHash) Get(v any) (any, bool) {
 	case 1:
 		return nodes[0], true
 	default:
-		innerIndex := h.hashFunc([]byte(innerRepr(v)))
-		pos := int(innerIndex % uint64(len(nodes)))
-		return nodes[pos], true
+		// several nodes share this virtual node: pick the one with the highest score of
+		// (key, node), so that the choice doesn't depend on the order the nodes were added,
+		// and adding or removing one of them only moves the keys of that node.
+		inner := innerRepr(v)
+		var picked any
+		var pickedRepr string
+		var max uint64
+		for i, node := range nodes {
+			nodeRepr := repr(node)
+			score := h.hashFunc([]byte(inner + ":" + nodeRepr))
+			if i == 0 || score > max || (score == max && nodeRepr < pickedRepr) {
+				picked, pickedRepr, max = node, nodeRepr, score
+			}
+		}
+		return picked, true
 	}
 }
 
@@ -136,32 +148,41 @@ func (h *ConsistentHash) Remove(node any) {
 
 	for i := 0; i < h.replicas; i++ {
 		hash := h.hashFunc([]byte(nodeRepr + strconv.Itoa(i)))
+		// the node may have fewer replicas than h.replicas, and the virtual node
+		// may belong to another node, only remove the key together with the ring entry
+		if !h.removeRingNode(hash, nodeRepr) {
+			continue
+		}
+
 		index := sort.Search(len(h.keys), func(i int) bool {
 			return h.keys[i] >= hash
 		})
 		if index < len(h.keys) && h.keys[index] == hash {
 			h.keys = append(h.keys[:index], h.keys[index+1:]...)
 		}
-		h.removeRingNode(hash, nodeRepr)
 	}
 
 	h.removeNode(nodeRepr)
 }
 
-func (h *ConsistentHash) removeRingNode(hash uint64, nodeRepr string) {
-	if nodes, ok := h.ring[hash]; ok {
-		newNodes := nodes[:0]
-		for _, x := range nodes {
-			if repr(x) != nodeRepr {
-				newNodes = append(newNodes, x)
-			}
+// removeRingNode removes one entry of the node from the given virtual node,
+// and reports whether there was one.
+func (h *ConsistentHash) removeRingNode(hash uint64, nodeRepr string) bool {
+	nodes := h.ring[hash]
+	for i, x := range nodes {
+		if repr(x) != nodeRepr {
+			continue
 		}
-		if len(newNodes) > 0 {
-			h.ring[hash] = newNodes
-		} else {
+
+		if len(nodes) == 1 {
 			delete(h.ring, hash)
+		} else {
+			h.ring[hash] = append(nodes[:i], nodes[i+1:]...)
 		}
+		return true
 	}
+
+	return false
 }
 
 func (h *ConsistentHash) addNode(nodeRepr string) {
